@@ -146,5 +146,9 @@ func init() {
 		}
 		_ = math.Abs
 		c.res.sample(map[string]interface{}{"from": "adobergb", "to": "srgb", "pixel": "{200 100 50 255}"})
+		// the 8-bit tables the pipeline decodes and encodes with, rebuilt in child processes under other
+		// GOMAXPROCS values and on the 32-bit build
+		gomaxprocsSweep(c, "C04", "decode8")
+		gomaxprocsSweep(c, "C04", "encode8")
 	}
 }
